@@ -32,6 +32,7 @@ long cfg_get(const char* key, long dflt);
 // cfg dirty k>0: the object is about to be initialised in memory that is not zero (a stack slot, a recycled heap chunk,
 // an object that is destroyed and initialised again): fill it with a byte pattern first
 void rt_dirty(void* p, unsigned long n);
+void* rt_token(int idx);
 #define RT_DIRTY(obj) rt_dirty(&(obj), sizeof(obj))
 extern int rt_tolerate_known_reads;
 void rt_known_read_site(int enter);
